@@ -590,6 +590,60 @@ func TestC09_R_ConcurrentEncode(t *testing.T) {
 	for e := range errs {
 		t.Fatalf("C09: %d goroutines encoding their own messages at the same time: %s", G, e)
 	}
+	// ... and decoding: each goroutine decodes its own message, whose block sizes come as one packed run of 3000 entries
+	// (and once in a while as 3000 unpacked fields)
+	type djob struct {
+		packed, unpacked []byte
+		sizes            []uint64
+	}
+	djobs := make([]djob, G)
+	for g := range djobs {
+		var run, unp []byte
+		for i := 0; i < 3000; i++ {
+			v := uint64(g*1000000 + i*7 + 1)
+			djobs[g].sizes = append(djobs[g].sizes, v)
+			run = wVarint(run, v)
+			unp = wVarint(wTag(unp, 4, 0), v)
+		}
+		head := wVarint(wTag(nil, 1, 0), 2)
+		djobs[g].packed = wBytes(append([]byte{}, head...), 4, run)
+		djobs[g].unpacked = append(append([]byte{}, head...), unp...)
+	}
+	derrs := make(chan string, G)
+	for g := 0; g < G; g++ {
+		wg.Add(1)
+		go func(g int) {
+			defer wg.Done()
+			for i := 0; i < 300; i++ {
+				wire := djobs[g].packed
+				if i%8 == 7 {
+					wire = djobs[g].unpacked
+				}
+				n, err := data.DecodeUnixFSData(wire)
+				if err != nil {
+					derrs <- fmt.Sprintf("goroutine %d, iteration %d: decode: %v", g, i, err)
+					return
+				}
+				k := 0
+				for it := n.FieldBlockSizes().Iterator(); !it.Done(); k++ {
+					_, v := it.Next()
+					if k >= len(djobs[g].sizes) || uint64(v.Int()) != djobs[g].sizes[k] {
+						derrs <- fmt.Sprintf("goroutine %d, iteration %d: block size #%d decoded as %d, the message says %d", g, i, k, v.Int(), djobs[g].sizes[min(k, len(djobs[g].sizes)-1)])
+						return
+					}
+				}
+				if k != len(djobs[g].sizes) {
+					derrs <- fmt.Sprintf("goroutine %d, iteration %d: %d block sizes decoded, the message has %d", g, i, k, len(djobs[g].sizes))
+					return
+				}
+			}
+		}(g)
+	}
+	wg.Wait()
+	close(derrs)
+	for e := range derrs {
+		t.Fatalf("C09: %d goroutines decoding their own messages at the same time: %s", G, e)
+	}
 }
 
 // C11: sizes when a subtree holds 4 GiB (content sizes that no longer fit 32 bits): 4 GiB + 1 MiB + 5 bytes of zeros,
@@ -932,6 +986,8 @@ func TestC04_R_BulkReads(t *testing.T) {
 // C08: directories of more than 2^16 entries equal the reference HAMT's root and size.
 func TestC08_R_LargeDirectories(t *testing.T) {
 	for _, c := range []struct{ n, fanout, nameLen int }{{65536, 256, 0}, {65537, 256, 0}, {70001, 256, 0}, {66000, 1024, 0},
+		// beyond 2^17 entries, counts that are no multiple of anything convenient
+		{131077, 256, 0}, {140003, 64, 0},
 		// long names in a wide shard: single shard blocks of well over 1 MiB (the reference writes them as they come)
 		{600, 1024, 3500}, {1500, 1024, 4000}, {300, 512, 9000}} {
 		es := make([]entrySpec, c.n)
@@ -1582,8 +1638,14 @@ func TestC01_R_NeighbouringChunksCollidingUnderWeakChecksums(t *testing.T) {
 // io.EOF / io.ErrUnexpectedEOF (what a reader that pre-sizes its buffer for large files and fills it with io.ReadFull
 // would take for "less content than recorded") or another value: an error, never the file's prefix as if it were all.
 func TestC12_R_VeryLargeFileWholeValueFaults(t *testing.T) {
-	for i, n := range []int{40<<20 + 3, 136<<20 + 1} {
-		fc := bigFile(t, n, "", 174)
+	// ... and files of tens to hundreds of KiB (recorded sizes of 64 KiB .. 1 MiB and around), in several layouts
+	for i, c := range []struct {
+		n       int
+		chunker string
+		w       int
+	}{{40<<20 + 3, "", 174}, {136<<20 + 1, "", 174}, {70 << 10, "size-4096", 4}, {200<<10 + 7, "size-16384", 3}, {1 << 20, "size-65536", 174}, {65536, "size-1024", 174}, {3<<20 + 1, "", 174}, {300, "size-16", 3}} {
+		n := c.n
+		fc := bigFile(t, n, c.chunker, c.w)
 		all := fc.Tree.All()
 		var leaves []*FileNode
 		for _, nd := range all[1:] {
@@ -1927,6 +1989,98 @@ func TestC02_R_ConcurrentBuildsFromOneSharedEntrySlice(t *testing.T) {
 		for _, e := range errs {
 			if e != "" {
 				t.Fatalf("C02: %d directory builds from one shared slice of %d entries at the same time (round %d): %s", len(jobs), n, round, e)
+			}
+		}
+	}
+}
+
+// C02: a sharded directory of more than 2^16 shard blocks (150000 naturally named entries at fanout 8): its length, a
+// preloading reification and lookups of entries all over it.
+func TestC02_R_ShardedDirectoryOfManyThousandShards(t *testing.T) {
+	const n = 150000
+	st := NewStore()
+	es := make([]entrySpec, n)
+	for i := range es {
+		es[i] = entryFor(fmt.Sprintf("file-%06d.dat", i), 0)
+	}
+	root, _, err := buildSharded(st, es, 8)
+	if err != nil {
+		t.Fatal(err)
+	}
+	if st.Len() <= 1<<16 {
+		t.Fatalf("harness: only %d shard blocks", st.Len())
+	}
+	ls := st.LinkSystem()
+	for _, reifier := range []string{"unixfs", "unixfs-preload"} {
+		rn, err := loadReified(ls, root, reifier)
+		if err != nil {
+			t.Fatalf("C02: directory of %d entries in %d shard blocks via %s: %v", n, st.Len(), reifier, err)
+		}
+		if l := rn.Length(); l != n {
+			t.Fatalf("C02: directory of %d entries in %d shard blocks via %s: Length() = %d", n, st.Len(), reifier, l)
+		}
+		for i := 0; i < n; i += 997 {
+			v, err := rn.LookupByString(es[i].Name)
+			if c, e := linkOf(v); err != nil || e != nil || c != es[i].Cid {
+				t.Fatalf("C02: directory of %d entries via %s: lookup of %q: %v %v", n, reifier, es[i].Name, v, err)
+			}
+		}
+		if _, err := rn.LookupByString("no-such-entry"); !isNoSuchField(err) {
+			t.Fatalf("C02: directory of %d entries via %s: lookup of a non-member: %v", n, reifier, err)
+		}
+	}
+}
+
+// C02 / C08: entry names far beyond any path limit (4097 bytes .. 70000 bytes: directories are maps of byte strings), in
+// plain and sharded directories written by the builders and by the reference writer, through every lookup entry point.
+func TestC02_R_VeryLongNames(t *testing.T) { veryLongNames(t) }
+func TestC08_R_VeryLongNames(t *testing.T) { veryLongNames(t) }
+
+func veryLongNames(t *testing.T) {
+	var es []entrySpec
+	want := map[string]cid.Cid{}
+	for i, l := range []int{4095, 4096, 4097, 5000, 65535, 65536, 70000} {
+		name := fmt.Sprintf("name-of-%d-bytes-", l)
+		name += strings.Repeat(string(rune('a'+i)), l-len(name))
+		es = append(es, entryFor(name, 0))
+		want[name] = es[len(es)-1].Cid
+	}
+	for i := 0; i < 40; i++ {
+		es = append(es, entryFor(fmt.Sprintf("short-%02d", i), 0))
+		want[es[len(es)-1].Name] = es[len(es)-1].Cid
+	}
+	nonMembers := []string{es[2].Name[:4096], es[6].Name[:65535], es[6].Name + "x", "short-"}
+	for _, how := range []string{"plain", "sharded-8", "sharded-256", "sharded-1024", "reference-8", "reference-256"} {
+		st := NewStore()
+		var root cid.Cid
+		var err error
+		switch how {
+		case "plain":
+			root, _, err = buildDir(st, es)
+		case "sharded-8":
+			root, _, err = buildSharded(st, es, 8)
+		case "sharded-256":
+			root, _, err = buildSharded(st, es, 256)
+		case "sharded-1024":
+			root, _, err = buildSharded(st, es, 1024)
+		case "reference-8":
+			root, _, err = refBuildShard(st, es, 8)
+		default:
+			root, _, err = refBuildShard(st, es, 256)
+		}
+		if err != nil {
+			t.Fatalf("C02: %s directory with names of up to 70000 bytes: %v", how, err)
+		}
+		for _, reifier := range []string{"unixfs", "unixfs-preload"} {
+			rn, err := loadReified(st.LinkSystem(), root, reifier)
+			if err != nil {
+				t.Fatalf("C02: %s directory with names of up to 70000 bytes via %s: %v", how, reifier, err)
+			}
+			if err := checkDirIsMap(rn, want, nonMembers); err != nil {
+				if len(err.Error()) > 400 {
+					err = fmt.Errorf("%.400s...", err.Error())
+				}
+				t.Fatalf("C02: %s directory with names of 4095 .. 70000 bytes via %s: %v", how, reifier, err)
 			}
 		}
 	}
